@@ -164,17 +164,56 @@ theorem take_header_append (n : Nat) (x : Bytes) {k : Nat} (h : headerSize ≤ k
     (header n ++ x).take k = header n ++ x.take (k - headerSize) := by
   rw [List.take_append, length_header, List.take_of_length_le (by rw [length_header]; exact h)]
 
-theorem load_eq (alloc : Nat → Nat) (s : Bytes) :
-    load alloc s =
+theorem rdLE_offset_table (o : Nat) (us : List Nat) (rest : Bytes) (i : Nat) (hi : i < us.length) :
+    rdLE tblOffsetSize (table o us ++ rest) (tableEntrySize * i + tblOffsetOff)
+      = (o + ((us.take i).map (· % 2 ^ 32)).sum) % 2 ^ 64 := by
+  induction us generalizing o i with
+  | nil => cases hi
+  | cons u t ih =>
+    cases i with
+    | zero =>
+      simp only [table, tableEntry, tblOffsetOff, tblOffsetSize, tableEntrySize, Nat.mul_zero, List.append_assoc, rdLE,
+        List.drop_zero, List.take_zero, List.map_nil, List.sum_nil, Nat.add_zero]
+      rw [take_append_len (length_leBytes 8 o), leVal_leBytes8]
+    | succ i =>
+      have hi' : i < t.length := by simpa using hi
+      have := ih (o + u % 2 ^ 32) i hi'
+      simp only [List.take_succ_cons, List.map_cons, List.sum_cons]
+      rw [show o + (u % 2 ^ 32 + ((t.take i).map (· % 2 ^ 32)).sum) = o + u % 2 ^ 32 + ((t.take i).map (· % 2 ^ 32)).sum from by omega, ← this]
+      simp only [table, List.append_assoc, rdLE]
+      rw [show tableEntrySize * (i + 1) + tblOffsetOff = tableEntrySize + (tableEntrySize * i + tblOffsetOff) from by
+        simp only [tableEntrySize]; omega]
+      rw [drop_append_len_add (length_tableEntry o u)]
+
+/-- the table written by save passes the loader's (optional) cross-check of the offsets -/
+theorem offsetsOk_table (o : Nat) (us : List Nat) (rest : Bytes) (i : Nat) (pre post : List Nat) (hus : us = pre ++ post)
+    (hi : i = pre.length) :
+    offsetsOk (table o us ++ rest) i (o + (pre.map (· % 2 ^ 32)).sum) (post.map (· % 2 ^ 32)) = true := by
+  induction post generalizing i pre with
+  | nil => simp [offsetsOk]
+  | cons u t ih =>
+    simp only [List.map_cons, offsetsOk, Bool.and_eq_true, beq_iff_eq]
+    constructor
+    · have hlt : i < us.length := by rw [hus, List.length_append, List.length_cons]; omega
+      rw [rdLE_offset_table o us rest i hlt]
+      have : us.take i = pre := by rw [hus, hi]; simp
+      rw [this]
+    · have := ih (i + 1) (pre ++ [u]) (by rw [hus]; simp) (by simp [hi])
+      simpa [List.map_append, List.sum_append, Nat.add_assoc] using this
+
+theorem load_eq (cfg : LoaderCfg) (alloc : Nat → Nat) (s : Bytes) :
+    load cfg alloc s =
       match parseHeader s with
       | .error e => .error e
       | .ok (n, s1) =>
         match parseTable n s1 with
         | .error e => .error e
         | .ok (sizes, s2) =>
-          match readBodies alloc 0 sizes s2 with
-          | .error e => .error e
-          | .ok (bufs, s3) => applyRelocs { bufs := bufs, relocs := [], init := loadInitialSize } s3 := by
+          if cfg.checksOffsets && !offsetsOk s1 0 (headerSize + tableEntrySize * n) sizes then .error .corruptFile
+          else
+            match readBodies alloc 0 sizes s2 with
+            | .error e => .error e
+            | .ok (bufs, s3) => applyRelocs cfg { bufs := bufs, relocs := [], init := loadInitialSize } s3 := by
   unfold load
   cases h1 : parseHeader s with
   | error e => rfl
@@ -186,8 +225,10 @@ theorem load_eq (alloc : Nat → Nat) (s : Bytes) :
     | ok y =>
       obtain ⟨sizes, s2⟩ := y
       simp only
-      cases h3 : readBodies alloc 0 sizes s2 with
-      | error e => rfl
-      | ok z => rfl
+      split
+      · rfl
+      · cases h3 : readBodies alloc 0 sizes s2 with
+        | error e => rfl
+        | ok z => rfl
 
 end YaraModel.Arena
